@@ -46,18 +46,55 @@ def cmd_check(args):
         extra = {}
         if hasattr(mod, 'finalize_args'):
             extra = mod.finalize_args(S, tier, seed)
+        if tier == 'thorough':
+            native = thorough_checks(S, mod, prop, seed)
+            extra.setdefault('bounded', [])
+            extra['bounded'] = list(extra['bounded']) + native
+            extra['native'] = native
         code = report.finalize(
             S, prop, tier, seed,
             expected=getattr(mod, 'EXPECTED', []),
             replayers=getattr(mod, 'REPLAYERS', {}),
             kf_classes=getattr(mod, 'KF_CLASSES', {}),
             level_note=getattr(mod, 'LEVEL_NOTE', ''),
+            fallback=getattr(mod, '_battery', None),
             **extra)
     except Exception:
         traceback.print_exc()
         print('CHECKER-CRASH %s' % prop)
         return 3
     return code
+
+
+def thorough_checks(S, mod, prop, seed):
+    """thorough tier = quick tier + bounded native/differential checks:
+    the property's native battery against the real CLIs of the tree under
+    test, and the library-model validation against CPython.  Bounded, never
+    counted as proof; a failing battery is a violation with a native witness,
+    a failing model validation is a checker failure."""
+    import time
+    from pyvc import validate
+    out = []
+    t0 = time.time()
+    bat = getattr(mod, '_battery', None)
+    if bat is not None:
+        try:
+            r = bat(S, None, None)
+        except Exception:
+            r = {'confirmed': False, 'error': traceback.format_exc()[-1500:]}
+        out.append({'what': 'native battery of %s against %s' % (
+            prop, S.interp.repo), 'kind': 'battery', 'result': r,
+            'seconds': round(time.time() - t0, 1), 'counts_as_proof': False})
+    for fn, props in ((validate.posixpath_models, None),
+                      (validate.quote_models, ('C02', 'C03', 'C09', 'C20', 'C12')),
+                      (validate.datetime_models, ('C03', 'C10', 'C09', 'C20', 'C02'))):
+        if props is None or prop in props:
+            t1 = time.time()
+            r = fn()
+            r['kind'] = 'model-validation'
+            r['seconds'] = round(time.time() - t1, 1)
+            out.append(r)
+    return out
 
 
 def cmd_replay(args):
